@@ -16,7 +16,7 @@ var docUnderstood = map[int]bool{200: true, 203: true, 301: true, 304: true, 404
 func Storability(method string, reqHeader http.Header, status int, respHeader http.Header, bodyFails bool) (verdict, reason string) {
 	reqCC := ParseCC(reqHeader)
 	cc := ParseCC(respHeader)
-	plainGET := method == http.MethodGet && len(reqHeader.Values("Range")) == 0
+	plainGET := method == http.MethodGet && reqHeader.Get("Range") == "" // (present but empty: no range request, DESIGN section 9)
 	understoodMaybe := !unassigned[status]
 	switch {
 	case !plainGET:
